@@ -47,11 +47,13 @@ class Run:
         self.lemma_obls = 0
         self.timeout_ms = 30000 if tier == 'quick' else 120000
         self.known = [k for k in load_known() if k.get('property') == prop]
-        rd = os.path.join(VERIF, 'replays', prop)
+        # runs against a scratch copy (mutation testing) must never overwrite the evidence of the real tree
+        self.outroot = VERIF if os.path.realpath(repo) == '/repo' else os.path.join(VERIF, '.work', 'scratch')
+        rd = os.path.join(self.outroot, 'replays', prop)
         os.makedirs(rd, exist_ok=True)
         for f in os.listdir(rd):
             os.unlink(os.path.join(rd, f))
-        os.makedirs(os.path.join(VERIF, 'evidence'), exist_ok=True)
+        os.makedirs(os.path.join(self.outroot, 'evidence'), exist_ok=True)
 
     # ------------------------------------------------------------------ proving
     def prove(self, spec, replayer=None):
@@ -132,7 +134,7 @@ class Run:
                     detail = detail2
             except Exception as ex:
                 detail = (detail or '') + '\nbattery error: ' + repr(ex)
-        path = os.path.join(VERIF, 'replays', self.prop, re.sub(r'[^A-Za-z0-9_.#-]+', '_', o.name)[:150] + '.json')
+        path = os.path.join(self.outroot, 'replays', self.prop, re.sub(r'[^A-Za-z0-9_.#-]+', '_', o.name)[:150] + '.json')
         rec = dict(property=self.prop, obligation=o.name, kind=o.kind, function=o.fn, source=o.src, line=o.lineno,
                    solver_status=r['status'], backend=r.get('backend'), solver_detail=r.get('detail'),
                    model=model, reproduced=bool(reproduced), replay_detail=detail,
@@ -160,7 +162,7 @@ class Run:
 
     # ------------------------------------------------------------------ bounded stand-in (E3)
     def bounded_violation(self, what, witness, detail):
-        path = os.path.join(VERIF, 'replays', self.prop, re.sub(r'[^A-Za-z0-9_.#-]+', '_', 'bounded.' + what)[:150] + '.json')
+        path = os.path.join(self.outroot, 'replays', self.prop, re.sub(r'[^A-Za-z0-9_.#-]+', '_', 'bounded.' + what)[:150] + '.json')
         rec = dict(property=self.prop, obligation='bounded:' + what, witness=witness, replay_detail=detail,
                    reproduced=True)
         self._violation('bounded:' + what, path, rec, detail, True)
@@ -224,7 +226,7 @@ class Run:
                   violations=len(self.violations))
         if crashed:
             ev['coverage']['crash'] = crashed
-        json.dump(ev, open(os.path.join(VERIF, 'evidence', self.prop + '.json'), 'w'), indent=1, default=str)
+        json.dump(ev, open(os.path.join(self.outroot, 'evidence', self.prop + '.json'), 'w'), indent=1, default=str)
         for info in self.eng.fninfo:
             print(f"  fn {info['name']}: obligations {info['obligations']} paths {info['paths']}")
         print(f'  obligations {n} discharged {disch} backends {by} solver_s {st:.1f} bounded_cases '
